@@ -320,15 +320,23 @@ def build_era5(rng, big):
     data = np.transpose(d, [can.index(x) for x in order])
     lat = np.linspace(72, -72, nla) if nla > 1 else np.array([10.0])
     lon = np.linspace(0, 324, nlo) if nlo > 1 else np.array([100.0])
+    # what the native coordinates hold: bin numbers 1..N (files from the CDS), the same as floats, or — in re-exported files — the
+    # physical values themselves (frequencies in Hz, going-to directions in degrees); the reader assigns its grids by position
+    ckind = rng.choice(["pos", "pos", "floatpos", "values"]) if mode != "custom" else rng.choice(["pos", "floatpos"])
+    fco, dco = np.arange(1, nf + 1), np.arange(1, nd + 1)
+    if ckind == "floatpos":
+        fco, dco = fco.astype(float), dco.astype(float)
+    elif ckind == "values":
+        fco, dco = np.asarray(ERA5_F, dtype=float), np.asarray(ERA5_GOING_TO, dtype=float)
     coords = dict(time=np.arange(nt) * np.timedelta64(1, "h") + np.datetime64("2020-01-01"), latitude=lat, longitude=lon,
-                  frequency=np.arange(1, nf + 1), direction=np.arange(1, nd + 1))
+                  frequency=fco, direction=dco)
     ds = xr.Dataset({"d2fd": (order, data)}, coords=coords)
     if mode != "dispatch":
         ds = ds.rename(d2fd="efth", frequency="freq", direction="dir", latitude="lat", longitude="lon")
     with np.errstate(all="ignore"):
         E = np.where(np.isnan(d), 0.0, 10.0 ** d)
     meta = dict(conv="era5", mode=mode, lead=["time", "lat", "lon"], freq=np.asarray(freq, dtype=float), dirs=dirs, d=d, E=E, dtype="float64",
-                tags=(mode, fk, dk, "miss:" + miss, "perm" if order[:3] != ["time", "frequency", "direction"] else "file-order"))
+                tags=(mode, fk, dk, "miss:" + miss, "perm" if order[:3] != ["time", "frequency", "direction"] else "file-order", "coords:" + ckind))
     return ds, meta
 
 
